@@ -1214,3 +1214,31 @@ func handlerFns(p *Program, a *anchors) []*ssa.Function {
 	sort.Slice(out, func(i, j int) bool { return p.FnName(out[i]) < p.FnName(out[j]) })
 	return out
 }
+
+var valueUseCache = map[*ssa.Program]map[*ssa.Function]bool{}
+
+// functionUsedAsValue: fn appears somewhere other than as the callee of a
+// direct call (stored, passed, bound).
+func functionUsedAsValue(p *Program, fn *ssa.Function) bool {
+	m := valueUseCache[p.SSA]
+	if m == nil {
+		m = map[*ssa.Function]bool{}
+		for _, g := range p.Fns {
+			for _, b := range g.Blocks {
+				for _, ins := range b.Instrs {
+					cc := callOf(ins)
+					for _, op := range ins.Operands(nil) {
+						if op == nil || *op == nil {
+							continue
+						}
+						if f, ok := (*op).(*ssa.Function); ok && !(cc != nil && cc.Value == ssa.Value(f)) {
+							m[f] = true
+						}
+					}
+				}
+			}
+		}
+		valueUseCache[p.SSA] = m
+	}
+	return m[fn]
+}
